@@ -351,6 +351,38 @@ theorem save_history_clearShared_refuted :
     (Tables.saveHistory .clearShared [{ faces := true }, {}] quadMesh).1 ≠ [applyIgnore { faces := true } quadMesh, applyIgnore {} quadMesh] := by
   decide
 
+/-- round 3b — what `save(mesh, file, ignore_elements=K)` writes is the export of the RESTRICTION of the mesh to the kept
+element kinds, and everything the writer looks at (which edges to write, the dimensionality) is computed on that
+restriction: loading gives the vocabulary restriction of `applyIgnore K m`, of class `dim` of that content -/
+theorem ignored_save_is_save_of_restriction (cd : Codec C) (h : RoundTrips cd) (cfg : Cfg) (ig : Ignore) (m : Raw C) :
+    (Tables.saveMesh Mouette.Generated.C04Save.ignoreMode ig m).1 = applyIgnore ig m
+    ∧ importObj cd (exportObj cd cfg (applyIgnore ig m)) = some (restrictObj cfg (applyIgnore ig m))
+    ∧ importMedit cd (exportMedit cd (applyIgnore ig m)) = some (restrictMedit (applyIgnore ig m))
+    ∧ (importObj cd (exportObj cd cfg (applyIgnore ig m))).map dim = some (dim (restrictObj cfg (applyIgnore ig m))) := by
+  refine ⟨rfl, obj_load_save cd h cfg _, medit_load_save cd h _, ?_⟩
+  rw [obj_load_save cd h]; rfl
+
+/-- wireframe export: when the faces are ignored (for medit: faces and cells) EVERY edge of the mesh is written and comes
+back — not only the declared ones, since no reader could complete the others — and the loaded class is that of a
+polyline / point cloud (dimensionality computed AFTER the restriction) -/
+theorem wireframe_keeps_all_edges (cfg : Cfg) (ig : Ignore) (m : Raw C) (hf : ig.faces = true) :
+    (restrictObj cfg (applyIgnore ig m)).edges
+        = (if cfg.exportEdges then (if ig.edges then [] else m.edges) else []).map keyify
+    ∧ (restrictObj cfg (applyIgnore ig m)).faces = []
+    ∧ dim (restrictObj cfg (applyIgnore ig m)) ≤ 1
+    ∧ (ig.cells = true → (restrictMedit (applyIgnore ig m)).edges = if ig.edges then [] else m.edges) := by
+  refine ⟨?_, ?_, ?_, ?_⟩
+  · simp only [restrictObj, Tables.objEdges_wireframe cfg ig m hf]
+  · simp [restrictObj, applyIgnore, hf]
+  · have : (restrictObj cfg (applyIgnore ig m)).faces = [] := by simp [restrictObj, applyIgnore, hf]
+    have hc : (restrictObj cfg (applyIgnore ig m)).cells = [] := rfl
+    unfold dim
+    rw [this, hc]
+    simp only [ne_eq, not_true_eq_false, if_false]
+    split <;> omega
+  · intro hc
+    simp only [restrictMedit, Tables.medEdges_wireframe ig m hf hc]
+
 /-- second generation (load, save again, load): the content read from a medit / tet / xyz file is a fixed point -/
 theorem second_generation (cd : Codec C) (h : RoundTrips cd) (m : Raw C) :
     importMedit cd (exportMedit cd (restrictMedit m)) = some (restrictMedit m)
